@@ -215,6 +215,25 @@ func Gt(a, b Term) Term {
 }
 
 func Select(arr, idx Term) Term {
+	// select over a store with literal indices is decided here
+	if k, ok := modelInt(idx.S); ok {
+		cur := arr
+		for strings.HasPrefix(cur.S, "(store ") && strings.HasSuffix(cur.S, ")") {
+			parts := splitTopLevel(cur.S[1 : len(cur.S)-1])
+			if len(parts) != 4 {
+				break
+			}
+			j, lit := modelInt(parts[2])
+			if !lit {
+				break
+			}
+			if j == k {
+				return Term{parts[3], arrayElemSort(arr.Sort)}
+			}
+			cur = Term{parts[1], arr.Sort}
+		}
+		arr = cur
+	}
 	return mk(arrayElemSort(arr.Sort), "select", arr, idx)
 }
 
